@@ -19,14 +19,15 @@ IsAsciiT(t) == \A i \in 1..Len(t) : t[i] < 128
 T2(a, b) == <<a, b>>
 
 LongUser == <<115, 101, 114, 118, 105, 99, 101, 45, 97, 99, 99, 111, 117, 110, 116, 45, 119, 105, 116, 104, 45, 97, 45, 108, 111, 110, 103, 45, 110, 97, 109, 101, 45, 48, 49, 50, 51, 52, 53, 54, 55, 56, 57>>
-Users == IF Rich THEN {NULL, <<>>, <<117>>, <<117, 58, 112>>, <<233>>, <<117, 115, 101, 114, 110, 97, 109, 101>>, <<37, 55, 53>>, LongUser}
-         ELSE {NULL, <<>>, <<117>>, <<37, 55, 53>>, LongUser}
-Hosts == IF Rich THEN {<<>>, <<104>>, <<104, 111, 115, 116, 110, 97, 109, 101>>, <<91, 58, 58, 49, 93>>, <<233>>, <<37, 54, 56>>, <<37, 67, 51, 37, 65, 57>>}
-         ELSE {<<>>, <<104>>, <<37, 54, 56>>, <<104, 111, 115, 116, 110, 97, 109, 101>>, <<91, 58, 58, 49, 93>>}
+Users == IF Rich THEN {NULL, <<>>, <<117>>, <<117, 58, 112>>, <<233>>, <<117, 115, 101, 114, 110, 97, 109, 101>>, <<37, 55, 53>>, LongUser, <<65, 37, 52, 50>>, <<37, 52, 49, 66>>}
+         ELSE {NULL, <<>>, <<117>>, <<37, 55, 53>>, LongUser, <<65, 37, 52, 50>>, <<37, 52, 49, 66>>}
+Hosts == IF Rich THEN {<<>>, <<104>>, <<104, 111, 115, 116, 110, 97, 109, 101>>, <<91, 58, 58, 49, 93>>, <<233>>, <<37, 54, 56>>, <<37, 67, 51, 37, 65, 57>>, <<65, 37, 52, 50>>, <<37, 52, 49, 66>>}
+         ELSE {<<>>, <<104>>, <<37, 54, 56>>, <<104, 111, 115, 116, 110, 97, 109, 101>>, <<91, 58, 58, 49, 93>>, <<65, 37, 52, 50>>, <<37, 52, 49, 66>>}
 Ports == IF Rich THEN {NULL, <<>>, <<56>>, <<56, 48, 56, 48>>} ELSE {NULL, <<>>, <<56, 48>>}
 AuthOps == {<<"set_userinfo", u>> : u \in Users} \cup {<<"set_host", h>> : h \in Hosts}
            \cup {<<"set_port", p>> : p \in Ports}
 
+\* (A%42 and %41B: two spellings of one value that have the SAME length)
 \* initial authorities x embeddings
 InitAuths == IF Rich
              THEN {<<>>, <<104>>, <<117, 64, 104>>, <<117, 58, 112, 64, 104, 58, 49>>, <<58, 64, 58>>,
